@@ -4,12 +4,17 @@ import MesaModel.Model.VizAltair
 import MesaModel.Model.VizInputs
 import MesaModel.Model.VizKwargs
 import MesaModel.Model.VizSize
+import MesaModel.Model.VizCtrl
+import MesaModel.Model.VizNet
+import MesaModel.Model.VizFrame
+import MesaModel.Model.VizPlot
 /-!
 Line-protocol driver for the Viz model (C20).  One output line per input line.
 Producer: harness/viz_common.py.
 
   scenario space FAM W H [ints…]     reset; FAM ∈ single multi hexs hexm moore vn hex netgrid net vor cs xcs;
-                                     extra ints: network node labels in graph order / Voronoi centroids x y x y …
+                                     extra ints: network node labels in graph order / Voronoi centroids x y x y … /
+                                     for `cs` optionally the origin X0 Y0 (x_min, y_min; positions are relative to it)
   scenario params                    reset
 
  space scenarios
@@ -19,6 +24,10 @@ Producer: harness/viz_common.py.
   collect | collectd COLOR SIZE MARKER ZORDER
   draw | altair | heap | drawc | altairc   (…c: through the solara component)
   drawk K=V …                        draw_space(…, **{K: V}), K ∈ alpha edgecolors linewidths (plotting keyword arguments)
+  drawnet N:X:Y …                    networks: draw_space(…, layout_alg=<callable returning {N: (X, Y), …}>, layout_kwargs={…}, draw_grid=False);
+                                     the markers at their layout positions, `size=` the default size
+  frame                              the axis limits draw_space asks for (hex grids in units of √3/2, 1/2; continuous spaces relative to
+                                     their origin; `-` for networks)
   sdefault                           the size of the markers of agents whose portrayal names none (`none` without agents)
   drawc0 | altairc0                  the components without a portrayal (their defaults: `{}`, `{"id": unique_id}`)
   layer v…                           property layer `v`: values, x-major (W*H ints);  layern NAME v…: layer NAME
@@ -36,6 +45,24 @@ Producer: harness/viz_common.py.
                                      spec/TYPE/VALUE/LABEL (a dict with "type"; VALUE, LABEL: `-` if absent), fdict (a dict
                                      without "type"), val/VALUE
   change NAME VALUE                  the input of parameter NAME reports VALUE (after a successful `inputs`)
+
+ plot scenarios (the measure plots)
+  scenario plot                      reset
+  data M=v,v,… …                     the model variables collected so far: measure M with its values (all of one length)
+  plot str M | dict M:COLOR … | list M … | tuple M … | other
+                                     PlotMatplotlib(model, measure): `ok ylabel=M|- legend=y|n | LABEL|-,COLOR|-,v+v+… | …` or `err Key M`
+  backend NAME                       make_plot_component("m", backend=NAME): ok | err NotImplemented | err Value
+
+ ctrl scenarios (the controls of SolaraViz; the model class takes `**kw`, is `running` while steps < kw["stop"])
+  scenario ctrl model|sim            reset; ModelController / SimulatorController (ABMSimulator)
+  viz R T STOP0 NAME:SPEC …          SolaraViz(Model(stop=STOP0), model_params={NAME: SPEC …}, render_interval=R, use_threads=T)
+                                     SPEC as for `inputs`; STOP0 `-`: Model()
+  step | play | reset                a click on Step / on ▶ or ❚❚ / on Reset (`disabled` if the button is)
+  render N | threads 0|1             the render-interval slider / the threads checkbox
+  change NAME VALUE                  the input of parameter NAME reports VALUE
+  loop EV …                          the play loop run to its end; EV = SLEEP[@J]: what the user does during the sleep of
+                                     this tick (SLEEP ∈ - pause reset render=N set:NAME:V) and a click on ▶ / ❚❚ during the
+                                     J-th model step of the tick; after the last EV the user clicks ❚❚ during the next sleep
 -/
 open Mesa.Viz
 
@@ -68,6 +95,8 @@ def parseExtra (fam : Family) (ws : List String) : Option (List Loc) := do
   match fam with
   | .netgrid | .net => pure (ints.map fun n => ⟨n, 0⟩)
   | .vor => pairUp ints
+  -- `cs X0 Y0`: the origin (`x_min`, `y_min`) of a `mesa.space.ContinuousSpace`; positions in the protocol are relative to it
+  | .cs => if ints.isEmpty || ints.length == 2 then pure [] else none
   | _ => if ints.isEmpty then pure [] else none
 
 structure St where
@@ -79,6 +108,10 @@ structure St where
   sig : Option (List Param) := none
   mparams : Option (List (String × Option Val)) := none
   widgets : List Widget := []
+  ctrlMode : Bool := false
+  plotMode : Bool := false
+  table : Table := []
+  ctrl : Option Ctrl := none
 
 def St.portrayal (st : St) : Portrayal := fun a => st.portray.lookup a
 
@@ -124,6 +157,8 @@ def fmtDraw (gs : List Group) : String :=
 def fmtErr : Err → String
   | .attribute => "err Attribute"
   | .notImplemented => "err NotImplemented"
+  | .zeroDivision => "err ZeroDivision"
+  | .value => "err Value"
 
 def fmtDict (d : Dict) : String :=
   ",".intercalate ((d.mergeSort fun a b => strLe a.1 b.1).map fun kv => s!"{kv.1}={kv.2}")
@@ -297,7 +332,7 @@ def upd (st : St) (r : Option Space) : St × String :=
   | none => (st, "err Invalid")
   | some sp => ({ st with space := some sp }, "ok")
 
-def stepLine (st : St) (ws : List String) : St × String :=
+def stepLine0 (st : St) (ws : List String) : St × String :=
   match ws with
   | "scenario" :: "space" :: fam :: w :: h :: extra =>
     match parseFam fam, w.toNat?, h.toNat? with
@@ -371,9 +406,46 @@ def stepLine (st : St) (ws : List String) : St × String :=
         else match drawSpaceKw sp st.heap st.portrayal kw with
           | .ok d => (st, fmtDrawKw d)
           | .error .attribute => (st, "err Attribute")
+          | .error (.raised e) => (st, fmtErr e)
           | .error (.conflict k) => (st, s!"err Value conflict {k}")
+  | "drawnet" :: toks =>
+    withSpace st fun sp =>
+      let parse (t : String) : Option (Int × Loc) :=
+        match t.splitOn ":" with
+        | [n, x, y] => do
+          let n ← n.toInt?
+          let x ← x.toInt?
+          let y ← y.toInt?
+          pure (n, ⟨x, y⟩)
+        | _ => none
+      match toks.mapM parse with
+      | none => (st, "bad-op")
+      | some ly =>
+        if !(sp.fam == .net || sp.fam == .netgrid) || !(ly.map (·.1)).Nodup then (st, "bad-op") else
+        match drawNetwork sp st.heap st.portrayal ly with
+        | .error .value => (st, "err Value")
+        | .error .noPosition => (st, "err Attribute")
+        | .error (.key n) => (st, s!"err Key {n}")
+        | .ok d =>
+          let size := match d.size with
+            | .exact f => fmtFrac f
+            | _ => "?"
+          (st, s!"ok size={size}" ++ ((fmtDraw d.groups).drop 2).toString)
+  | ["frame"] =>
+    withSpace st fun sp =>
+      match drawRaises sp with
+      | some e => (st, fmtErr e)
+      | none =>
+        match frameOf sp with
+        | none => (st, "ok -")
+        | some f =>
+          let fr (n : Int) : String := fmtFrac ⟨n, f.den⟩
+          (st, s!"ok x={fr f.xlo}..{fr f.xhi} y={fr f.ylo}..{fr f.yhi}")
   | ["sdefault"] =>
     withSpace st fun sp =>
+      match drawRaises sp with
+      | some e => (st, fmtErr e)     -- the size is observed through `draw_space`
+      | none =>
       if sp.placed.isEmpty then (st, "ok none")
       else match defaultSize sp with
         | .exact f => (st, s!"ok {fmtFrac f}")
@@ -467,6 +539,134 @@ def stepLine (st : St) (ws : List String) : St × String :=
       else (st, "err noinput")
     | none => (st, "err noinput")     -- the last `inputs` was refused (or there was none): no input to change
   | _ => (st, "bad-op")
+
+/-! ### ctrl scenarios -/
+
+/-- the harness' model class: `running` turns False in the step that reaches `kw["stop"]` -/
+def stopBeh : Behaviour := fun kw k =>
+  match kw.lookup "stop" with
+  | some (some v) => match v.toNat? with
+    | some s => decide (k < s)
+    | none => true
+  | _ => true
+
+/-- `def __init__(self, **kw)` -/
+def ctrlSig : List Param := [⟨"self", .posOrKw, false⟩, ⟨"kw", .varKw, false⟩]
+
+def fmtBool (b : Bool) : String := if b then "1" else "0"
+
+def fmtCtrl (c : Ctrl) : String :=
+  s!"ok gen={c.gen} steps={c.steps} mrunning={fmtBool c.mrunning} running={fmtBool c.running} playing={fmtBool c.playing}" ++
+  s!" play={if c.running then "en" else "dis"} stepb={if c.playing || !c.running then "dis" else "en"}" ++
+  s!" render={c.render} updates={c.updates} kwargs={fmtParams c.kwargs}"
+
+def parseSleep (s : String) : Option Ev :=
+  if s = "-" then some .idle
+  else if s = "pause" then some .pause
+  else if s = "reset" then some .reset
+  else match s.splitOn "=" with
+    | ["render", n] => n.toNat?.map .render
+    | _ => match s.splitOn ":" with
+      | ["set", name, v] => if name = "" || v = "" then none else some (.set name v)
+      | _ => none
+
+def parseEv (s : String) : Option (Ev × Option Nat) :=
+  match s.splitOn "@" with
+  | [sl] => (parseSleep sl).map (·, none)
+  | [sl, j] => do
+    let ev ← parseSleep sl
+    let j ← j.toNat?
+    if j = 0 then none else pure (ev, some j)
+  | _ => none
+
+def ctrlOp (st : St) (op? : Option CtrlOp) (refused : String) : St × String :=
+  match st.ctrl, op? with
+  | some c, some op =>
+    match c.apply stopBeh op with
+    | some c' => ({ st with ctrl := some c' }, fmtCtrl c')
+    | none => (st, refused)
+  | _, _ => (st, "bad-op")
+
+def ctrlLine (st : St) (ws : List String) : St × String :=
+  match ws with
+  | "viz" :: r :: t :: stop0 :: ps =>
+    match r.toNat?, (if t = "0" then some false else if t = "1" then some true else none),
+          (if stop0 = "-" then some [] else stop0.toNat?.map fun _ => [("stop", some stop0)]), ps.mapM parseParamVal with
+    | some r, some t, some kw0, some ps =>
+      if !(ps.map (·.1)).Nodup || st.ctrl.isSome then (st, "bad-op") else
+      match Ctrl.init ctrlSig ps kw0 r t with
+      | .error (.unsupported ty) => (st, s!"err unsupported {ty}")
+      | .error (.check e) => (st, fmtCheck (.error e))
+      | .ok c => ({ st with ctrl := some c }, fmtCtrl c)
+    | _, _, _, _ => (st, "bad-op")
+  | ["step"] => ctrlOp st (some .step) "disabled"
+  | ["play"] => ctrlOp st (some .play) "disabled"
+  | ["reset"] => ctrlOp st (some .reset) "disabled"
+  | ["render", n] => ctrlOp st (n.toNat?.map .render) "bad-op"
+  | ["threads", b] => ctrlOp st (if b = "0" then some (.threads false) else if b = "1" then some (.threads true) else none) "bad-op"
+  | ["change", name, v] => ctrlOp st (if name = "" || v = "" then none else some (.change name v)) "err noinput"
+  | "loop" :: evs => ctrlOp st ((evs.mapM parseEv).map .loop) "bad-op"
+  | _ => (st, "bad-op")
+
+/-! ### plot scenarios -/
+
+def parseSeries (s : String) : Option (String × List Int) :=
+  match s.splitOn "=" with
+  | [m, vs] => if m = "" then none else
+    if vs = "-" then some (m, []) else ((vs.splitOn ",").mapM String.toInt?).map fun (ys : List Int) => (m, ys)
+  | _ => none
+
+def fmtLine (l : PlotLine) : String :=
+  s!"{l.label.getD "-"},{l.color.getD "-"},{orDash ("+".intercalate (l.ys.map toString))}"
+
+def fmtPlot (p : Plot) : String :=
+  p.lines.foldl (fun acc l => acc ++ " | " ++ fmtLine l) s!"ok ylabel={p.ylabel.getD "-"} legend={if p.legend then "y" else "n"}"
+
+def parseMeasure (ws : List String) : Option MeasureSpec :=
+  match ws with
+  | ["str", m] => some (.str m)
+  | "dict" :: ms =>
+    let parse (t : String) : Option (String × String) :=
+      match t.splitOn ":" with
+      | [m, c] => if m = "" || c = "" then none else some (m, c)
+      | _ => none
+    match ms.mapM parse with
+    | some kv => if (kv.map (·.1)).Nodup then some (.dict kv) else none
+    | none => none
+  | "list" :: ms => some (.list ms)
+  | "tuple" :: ms => some (.tuple ms)
+  | ["other"] => some .other
+  | _ => none
+
+def plotLine (st : St) (ws : List String) : St × String :=
+  match ws with
+  | "data" :: ss =>
+    match ss.mapM parseSeries with
+    | some t =>
+      if !(t.map (·.1)).Nodup || !(t.all fun kv => kv.2.length == (t.head?.map (·.2.length)).getD 0) then (st, "bad-op")
+      else ({ st with table := t }, "ok")
+    | none => (st, "bad-op")
+  | "plot" :: spec =>
+    match parseMeasure spec with
+    | none => (st, "bad-op")
+    | some sp =>
+      match plotMeasure st.table sp with
+      | .error m => (st, s!"err Key {m}")
+      | .ok p => (st, fmtPlot p)
+  | ["backend", name] =>
+    match plotBackend name with
+    | .ok () => (st, "ok")
+    | .error .notImplemented => (st, "err NotImplemented")
+    | .error .value => (st, "err Value")
+  | _ => (st, "bad-op")
+
+def stepLine (st : St) (ws : List String) : St × String :=
+  match ws with
+  | ["scenario", "plot"] => ({ plotMode := true }, "ok")
+  | ["scenario", "ctrl", kind] =>
+    if kind = "model" || kind = "sim" then ({ ctrlMode := true }, "ok") else (st, "bad-op")
+  | "scenario" :: _ => stepLine0 st ws
+  | _ => if st.ctrlMode then ctrlLine st ws else if st.plotMode then plotLine st ws else stepLine0 st ws
 
 partial def loop (h : IO.FS.Stream) (out : IO.FS.Stream) (st : St) : IO Unit := do
   let line ← h.getLine
